@@ -212,46 +212,81 @@ func ruleR06_2(w *World, r *Report) {
 // R06.3 commit order
 func ruleR06_3(w *World, r *Report) {
 	u := w.Server()
-	r.Rule("R06.3", "commitToMongoDB records the new end of the log in the datatype document before updating it, inserts the operations before updating the datatype document, and never updates the document after a failed insert", 3)
-	fn := u.Fn(pService, "PushPullHandler", "commitToMongoDB")
-	if fn == nil {
-		r.Lost("PushPullHandler.commitToMongoDB")
+	r.Rule("R06.3", "the push commit records the new end of the log in the datatype document before updating it, inserts the operations before updating the datatype document, and never updates the document after a failed insert", 3)
+	proc := u.Fn(pService, "PushPullHandler", "process")
+	if proc == nil {
+		r.Lost("PushPullHandler.process")
 		return
 	}
-	owner := "PushPullHandler.commitToMongoDB"
-	var ins, upd *ssa.Call
-	for _, c := range callsNamed(fn, "InsertOperations") {
-		ins, _ = c.(*ssa.Call)
+	d := deepOf(proc)
+	owner := "push commit"
+	var ins, upd dins
+	for _, x := range d.calls("InsertOperations") {
+		if _, ok := x.in.(*ssa.Call); ok {
+			ins = x
+		}
 	}
-	for _, c := range callsNamed(fn, "UpdateDatatype") {
-		upd, _ = c.(*ssa.Call)
+	for _, x := range d.calls("UpdateDatatype") {
+		if _, ok := x.in.(*ssa.Call); ok {
+			upd = x
+		}
 	}
-	if ins == nil || upd == nil {
+	if ins.in == nil || upd.in == nil {
 		r.Lost(owner + ": InsertOperations and UpdateDatatype")
 		return
 	}
-	ends := storesTo(fn, ".Sseq.End")
-	okEnd := len(ends) == 1 && instrDominates(ends[0], upd) && canonName(ends[0].Val) == "$0.currentCP.Sseq"
-	r.Check(okEnd, owner+"/end of log", u.Pos(upd.Pos()), "Sseq.End = currentCP.Sseq before UpdateDatatype", "the recorded end of the log is not set from the handler's current server sequence before the datatype document is updated")
-	r.Check(!reachableFrom(upd, ins), owner+"/insert before update", u.Pos(ins.Pos()), "operations are inserted first", "the datatype document (checkpoint, end of log) is updated before the operations are stored: a crash in between acknowledges operations that are not in the log")
-	paths, okp := pathsWithBlocks(fn, nil, upd.Block())
-	good := okp
-	ev := errResult(ins)
-	for _, p := range paths {
-		if !p.Blocks[ins.Block()] {
+	okEnd := false
+	for _, e := range d.stores(".Sseq.End") {
+		if !strings.HasPrefix(d.name(e.n, e.in.(*ssa.Store).Addr), "$0.datatypeDoc.") {
 			continue
 		}
-		nilErr := false
-		for _, l := range p.Lits {
-			if isNilCheckOf(l, ev, true) {
-				nilErr = true
+		if d.name(e.n, e.in.(*ssa.Store).Val) != "$0.currentCP.Sseq" {
+			okEnd = false
+			break
+		}
+		if d.dominates(e, upd) {
+			okEnd = true
+		}
+	}
+	r.Check(okEnd, owner+"/end of log", d.pos(u, upd), "Sseq.End = currentCP.Sseq before UpdateDatatype", "the recorded end of the log is not set from the handler's current server sequence before the datatype document is updated")
+	r.Check(!d.reachable(upd, ins), owner+"/insert before update", d.pos(u, ins), "operations are inserted first", "the datatype document (checkpoint, end of log) is updated before the operations are stored: a crash in between acknowledges operations that are not in the log")
+	// at the function that contains both writes (directly or through helpers): the update is
+	// reached after the insert only on the insert's error-free edge
+	var common *dnode
+	for x := ins.n; x != nil && common == nil; x = x.parent {
+		for y := upd.n; y != nil; y = y.parent {
+			if x == y {
+				common = x
+				break
 			}
 		}
-		good = good && nilErr
 	}
-	r.Check(good, owner+"/no update after failed insert", u.Pos(upd.Pos()), "UpdateDatatype only after a successful insert", "UpdateDatatype is reachable after InsertOperations failed")
+	good := false
+	if common != nil {
+		pa, pb := lift(ins, common), lift(upd, common)
+		if pac, isCall := pa.(*ssa.Call); isCall && pb != nil && pa != pb {
+			paths, okp := pathsWithBlocks(common.fn, nil, pb.Block())
+			good = okp
+			ev := errResult(pac)
+			for _, p := range paths {
+				if !p.Blocks[pa.Block()] {
+					continue
+				}
+				nilErr := false
+				for _, l := range p.Lits {
+					if isNilCheckOf(l, ev, true) {
+						nilErr = true
+					}
+				}
+				good = good && nilErr
+			}
+		}
+	}
+	r.Check(good, owner+"/no update after failed insert", d.pos(u, upd), "UpdateDatatype only after a successful insert", "UpdateDatatype is reachable after InsertOperations failed")
 	// the inserted operations are the accepted ones
-	r.Check(canonName(ins.Call.Args[len(ins.Call.Args)-1]) == "$0.pushingOperations", owner+"/inserted operations", u.Pos(ins.Pos()), "pushingOperations", "the inserted documents are "+canonName(ins.Call.Args[len(ins.Call.Args)-1]))
+	ia := ins.in.(*ssa.Call).Call.Args
+	got := d.name(ins.n, ia[len(ia)-1])
+	r.Check(got == "$0.pushingOperations", owner+"/inserted operations", d.pos(u, ins), "pushingOperations", "the inserted documents are "+got)
 }
 
 // R06.4 no storage error dropped
